@@ -279,7 +279,17 @@ impl<'a> Gen<'a> {
         let total = *self.r.pick(&[1024usize, 1200, 1500]);
         fields.push((pad_tag, vec![0u8; total.saturating_sub(used)]));
         fields.sort_by_key(|(t, _)| u32::from_le_bytes(**t));
-        let body = enc_msg(&fields);
+        let mut body = enc_msg(&fields);
+        // every third one: ONE interior value offset moved by a few bytes (the message length stays a multiple of four;
+        // a boundary between two fields a request does not need can move without touching NONC / VER / SRV lengths —
+        // seeded change C07-r8 dropped the alignment check of interior offsets)
+        if self.r.chance(1, 3) && fields.len() >= 3 {
+            let k = 1 + self.r.below(fields.len() as u64 - 1) as usize;
+            let pos = 4 * k;
+            let cur = u32::from_le_bytes([body[pos], body[pos + 1], body[pos + 2], body[pos + 3]]) as i64;
+            let d = *self.r.pick(&[1i64, 2, 3, -1, -2, -3, 4, -4, 6]);
+            body[pos..pos + 4].copy_from_slice(&((cur + d).max(0) as u32).to_le_bytes());
+        }
         if ietf { frame(&body) } else { body }
     }
     /// near-valid mutant or junk
